@@ -62,7 +62,9 @@ def label_maps(case):
          "tuple": lambda: [() if i == 0 else (i, "x") for i in range(n)],     # () is falsy
          "float": lambda: [float(i) for i in range(n)],                       # 0.0 is falsy
          "bool01": lambda: [False, True][:n] + list(range(2, n))}[sch]()
-    A = {"int": [0, 1, 2, 3], "str": ["", "a1", "a2", "a3"], "tuple": [(), (1,), (2,), (3,)]}[asch]
+    K = 40
+    A = {"int": list(range(K)), "str": [""] + ["a%d" % i for i in range(1, K)],
+         "tuple": [()] + [(i,) for i in range(1, K)]}[asch]
     return L, {l: i for i, l in enumerate(L)}, A, {a: i for i, a in enumerate(A)}
 
 
